@@ -151,4 +151,80 @@ def expectedStateDBFacts : List (String × String) := [
   ("snapshotNativeState", "{ return s.cacheMS.Clone() }"),
   ("storageChange.Revert", "{ s.getStateObject(*ch.account).setState(ch.key, ch.prevalue) }")]
 
+/-! ## round 4 — the statements the dependency translator takes as neutral, as data
+
+`go/extract/c09dep.go` classifies some statements of `ExecuteNativeAction` / `EVM.Call*` / `create` as neutral (no effect on
+what the frame model keeps: journal, native store, gas handed back).  That classification used to be a trusted prefix list
+inside the translator.  The statements so classified are now printed IN FULL into `Gen.C09Dep.neutralStmts` (function,
+flattened source, StateDB methods called inside, whether it contains a `return`), and `Props/C09.lean` states: the list is
+literally the REVIEWED one below (a new or changed neutral statement in either fork is noticed); every neutral step of the
+interpreted programs has its text in the list; the StateDB methods reached from neutral statements are account
+bookkeeping only; a neutral statement that can return stands before the value transfer and the callee. -/
+
+/-- the neutral statements as reviewed (ethermint fork v0.22-fx / go-ethereum fork v1.10.20-fx as pinned by /repo/go.mod):
+event-manager plumbing of `ExecuteNativeAction`; precompile lookup, tracer hooks, account existence / creation (a CALL to a
+non-existent account without value returns at once: nothing was changed since the snapshot), `AddBalance(addr, 0)` (touch)
+in `StaticCall`; in `create` the creator's nonce bump, access list, collision test, new account + nonce, contract object,
+tracer hooks and the three checks on the returned runtime code -/
+def reviewedNeutral : List (String × String × List String × Bool) := [
+  ("ExecuteNativeAction", "eventManager := sdk.NewEventManager()", [], false),
+  ("ExecuteNativeAction", "events := eventManager.Events()", [], false),
+  ("ExecuteNativeAction", "s.emitNativeEvents(contract, converter, events)", ["emitNativeEvents"], false),
+  ("ExecuteNativeAction", "s.nativeEvents = s.nativeEvents.AppendEvents(events)", [], false),
+  ("Call", "p, isPrecompile := evm.Precompile(addr)", [], false),
+  ("Call", "debug := evm.Config.Tracer != nil", [], false),
+  ("Call", "if !evm.StateDB.Exist(addr) { if !isPrecompile && evm.chainRules.IsEIP158 && value.Sign() == 0 { if debug { if evm.depth == 0 { evm.Config.Tracer.CaptureStart(evm, caller.Address(), addr, false, input, gas, value) evm.Config.Tracer.CaptureEnd(ret, 0, nil) } else { evm.Config.Tracer.CaptureEnter(CALL, caller.Address(), addr, input, gas, value) evm.Config.Tracer.CaptureExit(ret, 0, nil) } } return nil, gas, nil } evm.StateDB.CreateAccount(addr) }", ["Exist", "CreateAccount"], true),
+  ("Call", "if debug { if evm.depth == 0 { evm.Config.Tracer.CaptureStart(evm, caller.Address(), addr, false, input, gas, value) defer func(startGas uint64) { evm.Config.Tracer.CaptureEnd(ret, startGas-gas, err) }(gas) } else { evm.Config.Tracer.CaptureEnter(CALL, caller.Address(), addr, input, gas, value) defer func(startGas uint64) { evm.Config.Tracer.CaptureExit(ret, startGas-gas, err) }(gas) } }", [], false),
+  ("CallCode", "if evm.Config.Tracer != nil { evm.Config.Tracer.CaptureEnter(CALLCODE, caller.Address(), addr, input, gas, value) defer func(startGas uint64) { evm.Config.Tracer.CaptureExit(ret, startGas-gas, err) }(gas) }", [], false),
+  ("DelegateCall", "if evm.Config.Tracer != nil { parent := caller.(*Contract) evm.Config.Tracer.CaptureEnter(DELEGATECALL, caller.Address(), addr, input, gas, parent.value) defer func(startGas uint64) { evm.Config.Tracer.CaptureExit(ret, startGas-gas, err) }(gas) }", [], false),
+  ("StaticCall", "evm.StateDB.AddBalance(addr, big0)", ["AddBalance"], false),
+  ("StaticCall", "if evm.Config.Tracer != nil { evm.Config.Tracer.CaptureEnter(STATICCALL, caller.Address(), addr, input, gas, nil) defer func(startGas uint64) { evm.Config.Tracer.CaptureExit(ret, startGas-gas, err) }(gas) }", [], false),
+  ("create", "nonce := evm.StateDB.GetNonce(caller.Address())", ["GetNonce"], false),
+  ("create", "if nonce+1 < nonce { return nil, common.Address{}, gas, ErrNonceUintOverflow }", [], true),
+  ("create", "evm.StateDB.SetNonce(caller.Address(), nonce+1)", ["SetNonce"], false),
+  ("create", "if evm.chainRules.IsBerlin { evm.StateDB.AddAddressToAccessList(address) }", ["AddAddressToAccessList"], false),
+  ("create", "contractHash := evm.StateDB.GetCodeHash(address)", ["GetCodeHash"], false),
+  ("create", "if evm.StateDB.GetNonce(address) != 0 || (contractHash != (common.Hash{}) && contractHash != emptyCodeHash) { return nil, common.Address{}, 0, ErrContractAddressCollision }", ["GetNonce"], true),
+  ("create", "evm.StateDB.CreateAccount(address)", ["CreateAccount"], false),
+  ("create", "if evm.chainRules.IsEIP158 { evm.StateDB.SetNonce(address, 1) }", ["SetNonce"], false),
+  ("create", "contract := NewContract(caller, AccountRef(address), value, gas)", [], false),
+  ("create", "contract.SetCodeOptionalHash(&address, codeAndHash)", [], false),
+  ("create", "if evm.Config.Tracer != nil { if evm.depth == 0 { evm.Config.Tracer.CaptureStart(evm, caller.Address(), address, true, codeAndHash.code, gas, value) } else { evm.Config.Tracer.CaptureEnter(typ, caller.Address(), address, codeAndHash.code, gas, value) } }", [], false),
+  ("create", "if err == nil && evm.chainRules.IsEIP158 && len(ret) > params.MaxCodeSize { err = ErrMaxCodeSizeExceeded }", [], false),
+  ("create", "if err == nil && len(ret) >= 1 && ret[0] == 0xEF && evm.chainRules.IsLondon { err = ErrInvalidCode }", [], false),
+  ("create", "if err == nil { createDataGas := uint64(len(ret)) * params.CreateDataGas if contract.UseGas(createDataGas) { evm.StateDB.SetCode(address, ret) } else { err = ErrCodeStoreOutOfGas } }", ["SetCode"], false),
+  ("create", "if evm.Config.Tracer != nil { if evm.depth == 0 { evm.Config.Tracer.CaptureEnd(ret, gas-contract.Gas, err) } else { evm.Config.Tracer.CaptureExit(ret, gas-contract.Gas, err) } }", [], false)]
+
+/-- StateDB methods that only touch EVM-side account bookkeeping (existence, nonce, code, access list, a zero-value touch)
+or the event buffer: nothing the View of the frame model (EVM storage slots, native store, logs) contains.  NOT in the
+list, on purpose: Snapshot, RevertToSnapshot, ExecuteNativeAction, Transfer, SubBalance, SetState, AddLog, Context, Commit -/
+def accountBookkeeping : List String :=
+  ["Exist", "CreateAccount", "AddBalance", "GetNonce", "SetNonce", "AddAddressToAccessList", "GetCodeHash", "SetCode", "emitNativeEvents"]
+
+def cNeutral : CStep → Bool
+  | .neutral _ => true
+  | _ => false
+def naNeutral : NAStep → Bool
+  | .events _ => true
+  | _ => false
+def cEffect : CStep → Bool
+  | .transfer | .runCallee => true
+  | _ => false
+
+def neutralOf (fn : String) (l : List (String × String × List String × Bool)) : List (String × String × List String × Bool) :=
+  l.filter (fun n => n.1 == fn)
+
+/-- number of neutral steps before the first statement with an effect (value transfer, callee) -/
+def neutralBeforeEffect : List CStep → Nat
+  | [] => 0
+  | st :: rest => if cEffect st then 0 else (if cNeutral st then 1 else 0) + neutralBeforeEffect rest
+
+/-- positions (among the neutral statements of one function, in source order) of those that contain a `return` -/
+def returningIdx (l : List (String × String × List String × Bool)) : List Nat :=
+  (l.zipIdx.filter (fun p => p.1.2.2.2)).map (·.2)
+
+/-- the five go-ethereum programs with the function name the translator records them under -/
+def depProgs : List (String × List CStep) :=
+  [("Call", progCall), ("CallCode", progCallCode), ("DelegateCall", progDelegateCall), ("StaticCall", progStaticCall), ("create", progCreate)]
+
 end FxVerif.Model.C09
